@@ -14,7 +14,7 @@ func init() {
 		Run:   checkC12,
 		Explanation: "Decides, for all thresholds and result sequences, the counting discipline the property describes: (R1) every HealthChecker.Check call receives the context returned by context.WithTimeout(_, 100ms); (R2) the threshold is MaxConsecutiveFailures if positive, else 3; " +
 			"(R3) on an unhealthy result the counter is incremented by exactly 1, the non-strict comparison count >= threshold leads to the health demotion and the loop's return, its negation to the next tick without any store operation; a healthy result resets the counter to 0; " +
-			"(R4) the counter is reset at the start of every term (in the claim-set unit, in the loop prologue, or it is a local of the loop); (R5) the health demotion goes through the demotion wrapper (OnDemote exactly once: C08).",
+			"(R4) the counter is reset at the start of every term (in the claim-set unit, in the loop prologue, or it is a local of the loop); (R5) the health demotion goes through the demotion wrapper (OnDemote exactly once: C08); (R6) the loop that runs the checks belongs to one term (C03-R9, shared): no loop of an earlier term counts into a later term's counter.",
 		NotDecided: []string{"that a slow checker which ignores its context does not delay the tick (runtime)", "re-election after a health demotion (C06)"},
 		Assumptions: []string{"context.WithTimeout semantics"},
 		Rules: map[string]string{
